@@ -347,7 +347,9 @@ pub fn handle(op: &str, req: &Value) -> Option<Value> {
             let wal_path = dir.join("node.wal");
             {
                 let mut w = RaftWal::open(&wal_path).unwrap();
-                let vote = if pre["voted_for"].is_null() { None } else { Some(sid(&pre["voted_for"])) };
+                // the node is "n1": a pre-state vote for the node's own id is a vote for "n1", any other voter id must not collide with it
+                let vote = if pre["voted_for"].is_null() { None } else if pre["voted_for"] == pre["node_id"] { Some("n1".to_string()) }
+                           else { Some(sid(&pre["voted_for"])).map(|v| if v == "n1" { "n1-other".to_string() } else { v }) };
                 w.append(&RaftWalEntry::TermAndVote { term: pre["term"].as_u64().unwrap_or(1), voted_for: vote }).unwrap();
                 // the node's pre-log, as persist_log_entry would have written it
                 for (i, t) in pre["log_terms"].as_array().into_iter().flatten().enumerate() {
